@@ -42,6 +42,11 @@ Theorem C13_node_locked_iff : forall sp n,
   exists x, In x (open sp) /\ node_of (oh_key x) = n.
 Proof. exact node_locked_iff. Qed.
 
+(* a substate is reported locked exactly while some handle on it is open *)
+Theorem C13_substate_locked_iff : forall sp k,
+  snd (spec_step sp (OpIsLocked k)) = OutBool true <-> exists x, In x (open sp) /\ oh_key x = k.
+Proof. exact substate_locked_iff. Qed.
+
 (* the counters of the implementation never underflow when unlock is applied to an open handle *)
 Theorem C13_no_underflow : forall ops s h,
   exec locks_new ops = Some s -> find_handle h (handles s) <> None ->
@@ -100,3 +105,4 @@ Print Assumptions C13_node_locked_iff.
 Print Assumptions C13_no_underflow.
 Print Assumptions C13_closed_handle_stays_closed.
 Print Assumptions C13_unissued_handle_unusable.
+Print Assumptions C13_substate_locked_iff.
